@@ -12,7 +12,7 @@ from fractions import Fraction
 
 import pandas as pd
 
-from .common import Q, close, frac, limbs_to_int
+from .common import Q, close, frac, limbs_to_int, maybe_float
 from .sim import minute  # noqa: F401  (imports demeter from the working tree)
 
 from demeter import Actuator, MarketInfo, Strategy, TokenInfo  # noqa: E402
@@ -135,14 +135,14 @@ def run_behaviour(pool: Pool, scn, events, row0, float_ticks=False, est_ranges=N
             b, q = market.remove_liquidity(PositionInfo(r[0], r[1]), liq, ev["collect"])
             return {"base": b, "quote": q}
         if op == "collect":
-            m0, m1 = amt(ev["m0"]), amt(ev["m1"])
+            m0, m1 = maybe_float(amt(ev["m0"])), maybe_float(amt(ev["m1"]))      # Decimal | float, as the signature says
             b, q = market.collect_fee(PositionInfo(r[0], r[1]), m0, m1)
             return {"base": b, "quote": q}
         if op == "buy":
-            fee, quote, base = market.buy(amt(ev["a"]))
+            fee, quote, base = market.buy(maybe_float(amt(ev["a"])))
             return {"fee": fee, "quote": quote, "base": base}
         if op == "sell":
-            fee, base, quote = market.sell(amt(ev["a"]))
+            fee, base, quote = market.sell(maybe_float(amt(ev["a"])))
             return {"fee": fee, "quote": quote, "base": base}
         if op == "lend":
             market.transfer_position_out(PositionInfo(r[0], r[1]))
